@@ -72,7 +72,8 @@ AddMount(a, pre, b) ==
   /\ mountedSet' = mountedSet \cup {b} /\ UNCHANGED <<nextH, early, done>>
 UsedFangs == UNION {SeqToSet(apps[a].fangs) : a \in 1..NApps} \cup UNION {SeqToSet(it.local) : it \in UNION {Items(a) : a \in 1..NApps}}
 Finish(e) == /\ ~done /\ mountedSet = 2..NApps
-             /\ \A a \in 1..NApps : \E it \in Items(a) : it.t = "route" \/ (it.t = "mount" /\ it.segs = <<>>)   \* (a root mount leaves no room for a route)
+             /\ \A a \in 1..NApps : \/ \E it \in Items(a) : it.t = "route" \/ (it.t = "mount" /\ it.segs = <<>>)   \* (a root mount leaves no room for a route)
+                                    \/ (MODE = "c04" /\ a > 1 /\ apps[a].fangs # <<>>)     \* a wall: a mounted application with fangs and no route at all
              /\ (e = 0 \/ (FANGS /\ e \in UsedFangs))
              /\ early' = e /\ done' = TRUE /\ UNCHANGED <<apps, mountedSet, nextH>>
 
